@@ -63,6 +63,7 @@ def run(ctx):
     ctx.guard(rule_b, ctx, ix)
     ctx.guard(rule_c, ctx, ix)
     ctx.guard(rule_d, ctx, ix)
+    ctx.guard(rule_e, ctx, ix)
 
 
 def _reaches(ix, cls, handler_src, target, depth=0):
@@ -275,3 +276,43 @@ def rule_d(ctx, ix):
     ctx.ob(R, lac.construct + '.__iter__', 'the container iterates a copy of its artists (excuses _sync_layer_artist_container)', ok,
            detail='LayerArtistContainer.__iter__ no longer iterates a copy: Viewer._sync_layer_artist_container removes artists while '
                   'iterating the live list', where=lac.where)
+
+
+def rule_e(ctx, ix):
+    """The layer-artist container notifies its listeners after every mutation (the layer sync of C18.b depends on it)."""
+    R = 'C18.e'
+    ctx.describe(R, 'every mutator of the layer-artist container notifies (or delegates to one that does)', floor=3)
+    lac = ix.cls('glue.core.layer_artist.LayerArtistContainer')
+    EXC = {'clear': 'only called by Viewer.cleanup after clear_callbacks(): nobody is left to notify',
+           '__init__': 'creates the list'}
+    n = 0
+    for name, m in sorted(lac.members.items()):
+        f = m.func
+        if f is None:
+            continue
+        s = f.self_name
+        muts = [c for c in calls_in(f.node) if call_name(c) in ('append', 'remove', 'pop', 'insert', 'clear', 'extend')
+                and unparse(c.func.value) == '%s.artists' % s]
+        if not muts:
+            continue
+        if name in EXC:
+            ctx.exception(R, '%s.%s' % (lac.construct, name), EXC[name])
+            continue
+        n += 1
+        common.must_reach(ctx, R, f,
+                          lambda e, s=s: any(isinstance(c, ast.Call) and call_name(c) in ('append', 'remove', 'pop', 'insert', 'clear', 'extend')
+                                             and unparse(c.func.value) == '%s.artists' % s for c in ast.walk(e)),
+                          lambda e, s=s: any(isinstance(c, ast.Call) and unparse(c.func) == '%s._notify' % s for c in ast.walk(e)),
+                          'the change of the artist list is followed by _notify()',
+                          '%(func)s changes the artist list with `%(stmt)s` and can return without calling _notify(): the viewer state\'s '
+                          'layer list is not pruned / the viewer is not told')
+    if n < 2:
+        raise AnalysisError('LayerArtistContainer: only %d mutators of the artist list recognised' % n)
+    f = lac.resolve_func('_notify')
+    ok = any(isinstance(x, ast.For) and 'change_callbacks' in unparse(x.iter) and any(isinstance(c, ast.Call) for c in ast.walk(x)) for x in ast.walk(f.node))
+    ctx.ob(R, f.construct, 'notifying calls every change callback', ok,
+           detail='LayerArtistContainer._notify no longer calls the change callbacks', where=f.where)
+    p = lac.resolve_func('pop')
+    ok = any(unparse(c.func) == '%s.remove' % p.self_name for c in calls_in(p.node))
+    ctx.ob(R, p.construct, 'pop removes through remove() (which notifies)', ok,
+           detail='LayerArtistContainer.pop no longer removes the artists through remove()', where=p.where)
